@@ -316,6 +316,41 @@ def free_scenarios(module, consts, n, rng, silent_share, chatter_share=0.0, forc
     return out
 
 
+def judge_adaptive(spec, module, prop_id, observed, info):
+    """family.judge, made robust against trees on which almost every trace violates something: TLC's set of
+    violations makes one big ObsCheck run quadratic.  A probe of 300 traces is judged first; only if it is
+    clean is the rest judged in one run, otherwise in pieces of 1000, stopping once 60 violations are known
+    (the verdict is exit 1 already; the number of unjudged traces is reported)."""
+    def one(trs):
+        return family.judge([spec], module + "Props", PROPS[prop_id], prop_id, trs, label=label)
+    total = {"violations": [], "known": {}, "n_lines": 0, "wall": 0.0, "raw": 0}
+
+    def add(v):
+        total["violations"].extend(v["violations"])
+        total["n_lines"] += v["n_lines"]
+        total["raw"] += v["raw"]
+        for kid, k in v["known"].items():
+            if kid in total["known"]:
+                total["known"][kid]["count"] += k["count"]
+            else:
+                total["known"][kid] = k
+    probe, rest = observed[:300], observed[300:]
+    v = one(probe)
+    add(v)
+    if not rest:
+        return total
+    if v["raw"] == 0:
+        add(one(rest))
+        return total
+    for i in range(0, len(rest), 1000):
+        if len(total["violations"]) >= 60:
+            info["traces_not_judged_after_60_violations"] = info.get("traces_not_judged_after_60_violations", 0) + \
+                len(rest) - i
+            break
+        add(one(rest[i:i + 1000]))
+    return total
+
+
 def run_driver(binary, test_name, paths_file, out_file, scratch, timeout=DRIVER_TIMEOUT, env_extra=None):
     """Like family.run_driver, with an outer wall-clock bound: the driver bounds every blocking point itself
     (hung calls become the judged outcome "hang"); if the process as a whole still does not finish it is
@@ -391,7 +426,7 @@ def run(prop_id, tier, seed, replay=None):
             phases["replay_s"] += time.time() - t1
             t1 = time.time()
             observed.sort(key=lambda t: t["id"])
-            v = family.judge([spec], module + "Props", PROPS[prop_id], prop_id, observed, label=label)
+            v = judge_adaptive(spec, module, prop_id, observed, state)
             phases["judge_s"] += time.time() - t1
             vd = state["verdict"]
             vd["violations"].extend(v["violations"])
@@ -449,7 +484,7 @@ def run(prop_id, tier, seed, replay=None):
                         last_b = a["b"]
                     elif module == "BlockQuery" and a["op"] == "HeaderLookup":
                         last_b = 0
-            v = family.judge([spec], module + "Props", PROPS[prop_id], prop_id, traces, label=label)
+            v = judge_adaptive(spec, module, prop_id, traces, state)
             vd = state["verdict"]
             vd["violations"].extend(v["violations"])
             vd["n_lines"] += v["n_lines"]
@@ -540,6 +575,8 @@ def run(prop_id, tier, seed, replay=None):
                               "phases": phases, "free_running": state.get("free"),
                               "hung_calls": state.get("hangs", 0) + (state.get("free") or {}).get("hung_calls", 0),
                               "paths_skipped_after_repeated_hangs": state.get("skipped", 0),
+                              "traces_not_judged_after_60_violations":
+                                  state.get("traces_not_judged_after_60_violations", 0),
                               "response_variants_exercised": dict(sorted(state["variants"].items()))},
                              ASSUMPTIONS[prop_id], label=label)
     finally:
